@@ -24,6 +24,12 @@ impl Prop for C06Prop {
             Tier::Thorough => 20_000_000,
         }
     }
+    fn unoptimised_share(&self, tier: Tier) -> f64 {
+        match tier {
+            Tier::Quick => 0.1,
+            Tier::Thorough => 0.03,
+        }
+    }
     fn rule(&self) -> &'static str {
         "valid files (generated or real transmissions) in which TLFs are replaced by ones declaring 2^4 .. 2^32-1 and >= 2^32 (9-12 nibbles, incl. values wrapping to the original length mod 2^32), at every TLF position incl. list counts, plus the C04 fault mix; both parsers run under the accounting allocator. Directed: every TLF site of a base set x every inflation value. Non-trivial = at least one fault applied; distinct = scenario fingerprint"
     }
